@@ -252,3 +252,27 @@ pub fn cuts(src: &mut Src, len: usize, allow_empty: bool) -> Vec<usize> {
     }
     out
 }
+
+
+/// The live tape moved out of its home for a while (a sink or reader owns it during a call into
+/// the code under test) and moved back when this guard is dropped - also when that call panics:
+/// without that the recorded tape would be lost with the unwinding and the violation could not
+/// be replayed.
+pub struct Lent<'a> {
+    home: &'a mut Src,
+    pub live: Src,
+}
+
+impl<'a> Lent<'a> {
+    pub fn new(home: &'a mut Src) -> Self {
+        let mut live = Src::replay(Vec::new());
+        std::mem::swap(home, &mut live);
+        Lent { home, live }
+    }
+}
+
+impl Drop for Lent<'_> {
+    fn drop(&mut self) {
+        std::mem::swap(self.home, &mut self.live);
+    }
+}
